@@ -25,6 +25,7 @@ Section TyInd.
   Hypothesis HLeaf : forall tp fmt pat, P (TLeaf tp fmt pat).
   Hypothesis HEnum : forall lit vals, P (TEnum lit vals).
   Hypothesis HTyped : forall names ts req, Forall P ts -> P (TTyped names ts req).
+  Hypothesis HOpaque : forall n, P (TOpaque n).
   Fixpoint ty_ind' (t: ty) : P t :=
     match t with
     | TInt => HInt | TFloat => HFloat | TBool => HBool | TStr => HStr | TNone => HNone | TAny => HAny
@@ -43,6 +44,7 @@ Section TyInd.
     | TEnum lit vals => HEnum lit vals
     | TTyped names ts req => HTyped names ts req ((fix go (l: list ty) : Forall P l :=
                                  match l with [] => Forall_nil _ | x :: r => Forall_cons _ (ty_ind' x) (go r) end) ts)
+    | TOpaque n => HOpaque n
     end.
 End TyInd.
 
@@ -101,6 +103,8 @@ Section Unfold.
     SF fuel (TLeaf tp fmt pat) st =
     if is_type_name tp && match fmt with Some f => str_mem f formats | None => true end
     then SOk (leaf_sk tp fmt pat, st) else SErr.
+  Proof. destruct fuel; reflexivity. Qed.
+  Lemma sf_opaque fuel n st : SF fuel (TOpaque n) st = SErr.
   Proof. destruct fuel; reflexivity. Qed.
   Lemma sf_enum fuel lit vals st : SF fuel (TEnum lit vals) st = SOk (enum_sk lit vals, st).
   Proof. destruct fuel; reflexivity. Qed.
@@ -350,6 +354,7 @@ Section Generic.
         apply andb_true_iff in Eg. destruct Eg as [Eg1 Eg2].
         apply G_obj; [|apply isort_nodup; apply req_keys_nodup; apply str_nodup_true; exact Eg1].
         intros k d Hin. apply in_combine_r in Hin. rewrite Forall_forall in B. apply B. exact Hin.
+      + rewrite sf_opaque in Hs. discriminate.
     - intros t. induction t using ty_ind'; intros st s st' Hs HI;
         try (destruct (sf_scalar E cfg (S fuel) st) as (H1 & H2 & H3 & H4 & H5 & H6);
              first [rewrite H1 in Hs | rewrite H2 in Hs | rewrite H3 in Hs | rewrite H4 in Hs | rewrite H5 in Hs | rewrite H6 in Hs];
@@ -405,6 +410,7 @@ Section Generic.
         apply andb_true_iff in Eg. destruct Eg as [Eg1 Eg2].
         apply G_obj; [|apply isort_nodup; apply req_keys_nodup; apply str_nodup_true; exact Eg1].
         intros k d Hin. apply in_combine_r in Hin. rewrite Forall_forall in B. apply B. exact Hin.
+      + rewrite sf_opaque in Hs. discriminate.
   Qed.
 
   Theorem build_inv fuel wd uri t st d st' :
